@@ -362,6 +362,7 @@ class Program:
             for u in r["unsafe"]:
                 self.unsafe.append(u)
         self.workspace_crates = set(self.crates)
+        self._callee_index = None
         self._by_path = {}
         for fn in self.fns.values():
             self._by_path.setdefault(fn.path, []).append(fn)
@@ -371,6 +372,21 @@ class Program:
                 self.children.setdefault(fn.root, []).append(fn)
         for v in self.children.values():
             v.sort(key=lambda f: (f.span[1], f.id))
+
+    def callee_index(self):
+        """callee pretty name (as it appears in call nodes) -> set of workspace body ids"""
+        if self._callee_index is None:
+            ci = {}
+            for fn in self.fns.values():
+                for b, t in fn.body.calls():
+                    c = callee_of(t)
+                    if not c:
+                        continue
+                    tid = c.get("rid") or c["id"]
+                    if tid in self.fns:
+                        ci.setdefault(c.get("rfn") or c["fn"], set()).add(tid)
+            self._callee_index = ci
+        return self._callee_index
 
     def fn_by_path(self, path):
         v = self._by_path.get(path, [])
